@@ -514,6 +514,25 @@ Inductive decision := ReuseNot | CachePositively | CacheNegatively | DoNotCacheB
 
 Definition status_in (s : N) (l : list N) : bool := existsb (fun x => (s =? x)%N) l.
 
+(* the `switch (rep->sline.status())` at the end of reusableReply *)
+Definition status_decision (cf : config) (p : reply) (e : entry) (now : Z) : decision :=
+  let s := p_status p in
+  if status_in s [scOkay; scNonAuthoritativeInformation; scMultipleChoices; scMovedPermanently; scPermanentRedirect; scGone] then
+    if refresh_is_cachable cf e now || refresh_override then CachePositively else DoNotCacheButShare
+  else if status_in s [scFound; scTemporaryRedirect] then
+    if rep_date p <=? 0 then DoNotCacheButShare
+    else if rep_date p <? rep_expires p now then CachePositively
+    else DoNotCacheButShare
+  else if status_in s [scNoContent; scUseProxy; scForbidden; scNotFound; scMethodNotAllowed; scUriTooLong;
+                       scInternalServerError; scNotImplemented; scBadGateway; scServiceUnavailable;
+                       scGatewayTimeout; scMisdirectedRequest] then
+    if use_http_violations && (0 <? negative_ttl cf) then CacheNegatively else DoNotCacheButShare
+  else if (s =? scBadRequest)%N then
+    if use_http_violations && (0 <? negative_ttl cf) then CacheNegatively else ReuseNot
+  else if status_in s [scSeeOther; scNotModified; scUnauthorized; scProxyAuthenticationRequired; scPaymentRequired;
+                       scInsufficientStorage] then DoNotCacheButShare
+  else ReuseNot.   (* the listed non-shareable codes and `default:` (unknown status code) *)
+
 Definition reusable_reply (cf : config) (h : hstate) (q : request) (p : reply) (e : entry) (now : Z) : decision :=
   let qcc := q_cc q in
   let rcc := p_cc p in
@@ -544,22 +563,7 @@ Definition reusable_reply (cf : config) (h : hstate) (q : request) (p : reply) (
     if auth_block then ReuseNot
     else if match p_content_type p with Some v => ci_prefix v s_mixed_replace | None => false end then ReuseNot
     else
-      let s := p_status p in
-      if status_in s [scOkay; scNonAuthoritativeInformation; scMultipleChoices; scMovedPermanently; scPermanentRedirect; scGone] then
-        if refresh_is_cachable cf e now || refresh_override then CachePositively else DoNotCacheButShare
-      else if status_in s [scFound; scTemporaryRedirect] then
-        if rep_date p <=? 0 then DoNotCacheButShare
-        else if rep_date p <? rep_expires p now then CachePositively
-        else DoNotCacheButShare
-      else if status_in s [scNoContent; scUseProxy; scForbidden; scNotFound; scMethodNotAllowed; scUriTooLong;
-                           scInternalServerError; scNotImplemented; scBadGateway; scServiceUnavailable;
-                           scGatewayTimeout; scMisdirectedRequest] then
-        if use_http_violations && (0 <? negative_ttl cf) then CacheNegatively else DoNotCacheButShare
-      else if (s =? scBadRequest)%N then
-        if use_http_violations && (0 <? negative_ttl cf) then CacheNegatively else ReuseNot
-      else if status_in s [scSeeOther; scNotModified; scUnauthorized; scProxyAuthenticationRequired; scPaymentRequired;
-                           scInsufficientStorage] then DoNotCacheButShare
-      else ReuseNot.   (* the listed non-shareable codes and `default:` (unknown status code) *)
+      status_decision cf p e now.
 
 (* ---------- HttpStateData::haveParsedReplyHeaders: the entry after the first transaction ---------- *)
 Definition first_entry (cf : config) (h : hstate) (q : request) (p : reply) (now : Z) : entry :=
